@@ -683,7 +683,8 @@ fn sched_units(quick: bool) -> Vec<SchedUnit> {
     if !quick {
         u.push(SchedUnit { lens: vec![2, 2], strat: 1, threads: 2, buf: 1, bl: 2, pre: 1, bound: None });
         u.push(SchedUnit { lens: vec![2, 1], strat: 0, threads: 2, buf: 2, bl: 1, pre: 3, bound: None });
-        u.push(SchedUnit { lens: vec![1, 1, 1], strat: 2, threads: 3, buf: 1, bl: 2, pre: 4, bound: Some(2) });
+        u.push(SchedUnit { lens: vec![1, 1, 1], strat: 2, threads: 3, buf: 1, bl: 2, pre: 4, bound: Some(1) });
+        u.push(SchedUnit { lens: vec![1, 1, 1], strat: 2, threads: 3, buf: 1, bl: 2, pre: 4, bound: None });
     }
     u
 }
